@@ -96,6 +96,13 @@ public:
         FASTOR_ASSERT(src.self().size()==size(), "TENSOR SIZE MISMATCH");
         assign(*this, src.self());
     }
+    // Assigning a map to a map of the same type copies the elements like any other tensor assignment. Without
+    // this overload the implicit member-wise copy assignment wins and only re-seats the wrapped pointer
+    FASTOR_INLINE TensorMap<T,Rest...>& operator=(const TensorMap<T,Rest...>& src) {
+        assign(*this, src);
+        return *this;
+    }
+    constexpr TensorMap(const TensorMap<T,Rest...>&) = default;
 
     // AbstractTensor and scalar in-place operators
     //----------------------------------------------------------------------------------------------------------//
